@@ -12,6 +12,7 @@ import LasModel.Driver.XdD
 import LasModel.Driver.StreamD
 import LasModel.Driver.CompD
 import LasModel.Driver.CopcD
+import LasModel.Driver.HttpD
 namespace LasModel.Driver
 
 def dispatch (line : String) : String :=
@@ -29,6 +30,7 @@ def dispatch (line : String) : String :=
   | "st" :: rest => (StreamD.handle rest).getD "bad-op"
   | "cz" :: rest => (CompD.handle rest).getD "bad-op"
   | "cp" :: rest => (CopcD.handle rest).getD "bad-op"
+  | "ht" :: rest => (HttpD.handle rest).getD "bad-op"
   | _ => "bad-op"
 
 partial def loop (h : IO.FS.Stream) (out : IO.FS.Stream) : IO Unit := do
